@@ -165,6 +165,25 @@ impl Engine for CmpEngine {
                 };
                 vec![mk(255), mk(254)]
             },
+            // two root functions whose names have the same 32-bit hash (`liquid`, `costarring`) in the
+            // name → function map while it grows (0-16 filler functions move the growth step across
+            // them); a submodule has its own `liquid`: the call from there must still take the root one
+            {
+                let hx = |s: &str| format!("${}", s.bytes().map(|b| format!("{b:02x}")).collect::<String>());
+                let mut ops = vec![];
+                for k in 0..17 {
+                    let mut fns = vec![];
+                    for i in 0..k {
+                        fns.push(format!("fn({},[],[return(int(#{i}))])", hx(&format!("filler{i}"))));
+                    }
+                    fns.push(format!("fn({},[],[return(int(#10))])", hx("liquid")));
+                    fns.push(format!("fn({},[],[return(int(#20))])", hx("costarring")));
+                    fns.push(format!("fn($6d61696e,[],[setglobal({},call({},[])),setglobal({},call({},[]))])", hx("first"), hx("m.go"), hx("second"), hx("costarring")));
+                    let sub = format!("sub({},mod([],[fn({},[],[return(int(#110))]),fn({},[],[return(call({},[]))])],[]))", hx("m"), hx("liquid"), hx("go"), hx("liquid"));
+                    ops.push(format!("cmp compile mod([],[{}],[{sub}])", fns.join(",")));
+                }
+                ops
+            },
             // a module-prefix import through `super.` (repaired: it never resolved)
             vec!["cmp compile mod([],[fn($6d61696e,[],[setglobal($67,call($6c69622e696e6e65722e72,[]))])],[sub($6c6962,mod([],[],[sub($696e6e6572,mod([$73757065722e736962],[fn($72,[],[return(call($7369622e71,[]))])],[])),sub($736962,mod([],[fn($71,[],[return(int(#7))])],[]))]))])".to_string()],
             // known finding K3: a reference to the entry function compiles, but `main` has no label
